@@ -1,6 +1,6 @@
 #!/bin/bash
 # Self-test (not a registered check): semantics-preserving edits must never produce a VIOLATION (exit 1); exit 0 or 2 only.
-cd /verif
+cd $(dirname $0)/..
 out=seeded/harmless/RESULTS.txt; : > $out.tmp
 for d in seeded/harmless/N*.diff; do
   n=$(basename $d .diff)
